@@ -433,9 +433,17 @@ def translate():
     d("v1_renders_lower_hex", True, "`format!(\"{computed:x}\")` compared with `!=` against the whole checksum text")
     pv = fn_body(mp, "parse_v1_mime_response")
     need(r"if let Some\(ref expected_checksum\) = checksum \{\s*validate_checksum\(message_data, expected_checksum\)\?;\s*\}", pv, "parse_v1_mime_response: validate when present")
-    before(r"validate_checksum\(message_data, expected_checksum\)\?;", r"MessageParser::default\(\)", pv, "parse_v1_mime_response: check before MIME parsing")
-    need(r"\.parse\(message_data\)", pv, "parse_v1_mime_response: MIME parser gets the message bytes only")
-    d("v1_check_before_mime", True, "`validate_checksum(…)?` precedes `MessageParser::default().parse(message_data)`")
+    # since fix d1b4b99 the MIME parser is reached through the helper `parse_message(data)` (nesting
+    # limit around `MessageParser::default().parse(data)`): the check must precede the only call of
+    # the helper, the helper gets the message bytes only, and nothing else in the function parses
+    before(r"validate_checksum\(message_data, expected_checksum\)\?;", r"parse_message\(", pv, "parse_v1_mime_response: check before MIME parsing")
+    one(r"(parse_message\(message_data\))", pv, "parse_v1_mime_response: MIME parser gets the message bytes only")
+    one(r"(\bparse_message\()", pv, "parse_v1_mime_response: one call of the MIME parser")
+    if re.search(r"MessageParser|raw_response\s*\)", pv.split("extract_checksum(raw_response)", 1)[-1]):
+        raise TranslationError("parse_v1_mime_response: the raw input / a second MIME parser is used after extract_checksum")
+    pm = fn_body(mp, "parse_message")
+    one(r"(MessageParser::default\(\)\.parse\(data\))", pm, "parse_message: parses exactly the bytes it is given")
+    d("v1_check_before_mime", True, "`validate_checksum(…)?` precedes `parse_message(message_data)` (= `MessageParser::default().parse(data)` + nesting limit)")
     w("")
 
     # ------------------------------------------------------------------ validation.rs
